@@ -160,6 +160,11 @@ fn pure_programs(quick: bool) -> Vec<Program> {
     out
 }
 
+thread_local! {
+    /// canonical answer terms of the last program run by `answer_multiset` (sorted)
+    static LAST_TERMS: std::cell::RefCell<Vec<Vec<T>>> = std::cell::RefCell::new(vec![]);
+}
+
 fn answer_multiset(den: &Den, p: &Program) -> Result<Vec<Vec<u64>>, End> {
     let nvars = crate::run::nvars_of(p.nq, &p.body);
     let out = run_query(nvars, p, 500, 1_000_000);
@@ -167,6 +172,9 @@ fn answer_multiset(den: &Den, p: &Program) -> Result<Vec<Vec<u64>>, End> {
         End::Exhausted => {
             let mut m: Vec<Vec<u64>> = out.answers.iter().map(|a| den.bits(&ansset_of_observed(&a.terms, &a.cons)).as_ref().clone()).collect();
             m.sort();
+            let mut t: Vec<Vec<T>> = out.answers.iter().map(|a| canon_tuple(&a.terms)).collect();
+            t.sort();
+            LAST_TERMS.with(|l| *l.borrow_mut() = t);
             Ok(m)
         }
         other => Err(other),
@@ -191,10 +199,22 @@ fn check_pure(den: &Den, p: &Program, index: usize) -> (Vec<Violation>, u64) {
     let vs = variants(p, 200);
     let reference = ref_multiset(den, p);
     let mut viols = vec![];
+    let mut first_terms: Option<Vec<Vec<T>>> = None;
     for v in &vs {
         let mk = |kind: &str, detail: String, site: String| Violation { kind: kind.into(), sig: v.to_string(), site, detail, family: "c04-pure".into(), index, schedule: vec![], data: Value::Null };
         match answer_multiset(den, v) {
             Ok(m) => {
+                // the answer TERMS agree across permutations up to renaming (exact, not only
+                // over the finite universe)
+                let t = LAST_TERMS.with(|l| l.borrow().clone());
+                match &first_terms {
+                    None => first_terms = Some(t),
+                    Some(f) if *f != t => {
+                        viols.push(mk("multiset-differs", format!("permutation of `{}`: the multiset of answer terms {:?} differs from that of the first permutation {:?}", p, t, f), String::new()));
+                        break;
+                    }
+                    _ => {}
+                }
                 if m != reference {
                     viols.push(mk("multiset-differs", format!("permutation of `{}`: {} answers whose instance sets differ from the order-free reference ({} answers)", p, m.len(), reference.len()), String::new()));
                     break;
